@@ -5,7 +5,9 @@ cd /verif || exit 2
 if [ -n "$(git -C /repo status --porcelain --untracked-files=no)" ]; then echo "repo dirty"; exit 2; fi
 git -C /repo apply $(realpath $S)/patch.diff || { echo "apply failed"; exit 2; }
 for id in "$@"; do
+  cp evidence/$id.json /tmp/seedrun_evidence_$id.json 2>/dev/null   # evidence of the unchanged tree must survive a run against a seeded change
   VERIF_SCALE=$SC timeout 3000 ./check $id --no-shrink > /tmp/seedrun_$id.log 2>&1; rc=$?
+  cp /tmp/seedrun_evidence_$id.json evidence/$id.json 2>/dev/null
   echo "$(basename $S) $id exit=$rc $(grep -c '^VIOLATION' /tmp/seedrun_$id.log) violation(s): $(grep -A1 '^VIOLATION' /tmp/seedrun_$id.log | grep signature | head -3 | tr '\n' ' ')"
 done
 git -C /repo checkout -- .
